@@ -396,6 +396,13 @@ func (x *fnExec) external(fr *frame, st *State, ci ssa.CallInstruction, res ssa.
 	case strings.HasPrefix(name, "(*sync/atomic."), strings.HasPrefix(name, "sync/atomic."):
 		x.atomicOp(fr, st, res, fn, args, fresh)
 		return
+	case name == "sort.Search":
+		v := fresh("search")
+		if v.K == VScalar && len(args) > 0 {
+			x.assume(st, And(BVCmp("bvsge", v.T, BVU(0, 64)), BVCmp("bvsle", v.T, args[0].T)))
+		}
+		set(v)
+		return
 	case pkg == "sort" || strings.HasPrefix(name, "slices.Sort"):
 		// permutes the slice argument: elements unknown afterwards
 		for i, a := range args {
@@ -409,7 +416,19 @@ func (x *fnExec) external(fr *frame, st *State, ci ssa.CallInstruction, res ssa.
 					continue
 				}
 			}
-			if a.K == VIface || a.K == VScalar && fn.Params[i].Type().String() != "int" {
+			if a.K == VIface {
+				// sort.Slice(x any, less): x boxes a slice; the boxed slice value is not tracked: havoc every element array of that type
+				if mi, ok := ci.Common().Args[i].(*ssa.MakeInterface); ok {
+					if sl, ok := mi.X.Type().Underlying().(*types.Slice); ok {
+						sv := x.val(fr, mi.X)
+						for _, l := range leaves(sl.Elem()) {
+							key := "E:" + typeName(sl.Elem()) + l.path
+							arr := st.arr(key, l.sort)
+							st.setArr(key, Store(arr, sv.base(), Fresh("sorted", Arr(BV(64), l.sort))))
+						}
+						continue
+					}
+				}
 				x.havocAll(st, "sort with opaque argument: "+name)
 				break
 			}
